@@ -220,7 +220,16 @@ static H10 shrink10(const H10& h0, YR_RULES* rules, const Diff10& d0) {
 // ======================================================================= C20 =
 struct Val { char type = 0; int64_t i = 0; double f = 0; std::string s; bool null_s = false; };
 typedef std::map<std::string, Val> Env;
-static const char* C20_BUF = "HEAD_EXTMARK of_one tail";
+static const char* C20_BUFS[2] = {"HEAD_EXTMARK of_one tail", "nothing of interest in here at all"};
+// what a LITERAL quantifier gives for `N of ($a,$b,$c)` on each buffer (externals must behave like literals of the same
+// type): measured once from literal twin rules, not assumed
+static bool g_of_literal[5][2];
+static void init_of_table() {
+  std::string src; for (int n = 0; n <= 4; n++) src += "rule l" + std::to_string(n) + " { strings: $a = \"of_one\" $b = \"of_three\" $c = \"EXTMARK\" condition: " + std::to_string(n) + " of them }\n";
+  YR_RULES* r = compile_simple(src);
+  for (int b = 0; b < 2; b++) { Recorder rec; yr_rules_scan_mem(r, (const uint8_t*) C20_BUFS[b], strlen(C20_BUFS[b]), 0, recorder_callback, &rec, 0); for (int n = 0; n <= 4; n++) g_of_literal[n][b] = rec.text.find("\nMATCH default:l" + std::to_string(n) + " ") != std::string::npos || rec.text.rfind("MATCH default:l" + std::to_string(n) + " ", 0) == 0; }
+  yr_rules_destroy(r);
+}
 static const char* C20_RULES =
   "rule x_int { condition: ext_i == 42 }\nrule x_int_arith { condition: ext_i * 2 + 1 == 85 }\nrule x_bool { condition: ext_b }\n"
   "rule x_float { condition: ext_f > 2.0 and ext_f < 3.0 }\nrule x_str { condition: ext_s contains \"needle\" and ext_s matches /ne+dle$/ }\n"
@@ -239,15 +248,15 @@ static bool model_str_ok(const std::string& s) {
   size_t p = s.size() - 3; size_t e = 0; while (p > 0 && s[p - 1] == 'e') { p--; e++; }
   return e >= 1 && p > 0 && s[p - 1] == 'n';
 }
-static std::set<std::string> model_verdicts(const Env& env) {
+static std::set<std::string> model_verdicts(const Env& env, int buf = 0) {
   std::set<std::string> m;
   auto I = [&](const char* id) { return env.at(id).i; };
   if (I("ext_i") == 42) { m.insert("x_int"); m.insert("x_int_arith"); }
   if (I("ext_b") != 0) m.insert("x_bool");
   double f = env.at("ext_f").f; if (f > 2.0 && f < 3.0) m.insert("x_float");
   if (model_str_ok(env.at("ext_s").s)) m.insert("x_str");
-  int64_t off = I("ext_off"); if (off == 5) m.insert("x_at"); if (5 >= off && 5 <= off + 2) m.insert("x_in");
-  int64_t n = I("ext_n"); if (n >= 1 && n <= 2) m.insert("x_of"); if (n >= 2) m.insert("x_loop");
+  int64_t off = I("ext_off"); if (buf == 0) { if (off == 5) m.insert("x_at"); if (5 >= off && 5 <= off + 2) m.insert("x_in"); }
+  int64_t n = I("ext_n"); if (n >= 0 && n <= 4 && g_of_literal[n][buf]) m.insert("x_of"); if (n >= 2) m.insert("x_loop");
   if (I("ext_i") > off) m.insert("x_cmp_ext");
   if (env.at("ext_t").s.find("needle") != std::string::npos) m.insert("x_str2");
   if (env.at("ext_s").s == env.at("ext_t").s) m.insert("x_streq");
@@ -269,7 +278,7 @@ static Val gen_val(Rng& rng, char type, bool allow_null) {
 }
 static Val gen_val_for(Rng& rng, int id, char type, bool allow_null) {
   Val v = gen_val(rng, type, allow_null);
-  if (type == 'i' && id == 5) v.i = 1 + rng.below(3);      // ext_n in 1..3
+  if (type == 'i' && id == 5) v.i = rng.below(5);          // ext_n in 0..4 (0 = "none of them", 4 = more than there are)
   if (type == 'i' && id == 4) v.i = (int64_t) rng.below(13);   // ext_off in 0..12 (ranges with huge or negative bounds are not what this model is about)
   return v;
 }
@@ -333,12 +342,13 @@ static Diff20 run_h20(const H20& h, Stats* st) {
   YR_RULES* rules = NULL; yr_compiler_get_rules(comp, &rules); yr_compiler_destroy(comp);
   std::vector<YR_RULES*> all_rules{rules};
   Env R = C; std::vector<YR_SCANNER*> scs; std::vector<Env> S;
+  int scan_no = 0;
   auto scan_check = [&](int op, YR_SCANNER* sc, const Env& env, const std::string& who) {
-    Recorder rec; int rc;
-    if (sc) { yr_scanner_set_callback(sc, recorder_callback, &rec); rc = yr_scanner_scan_mem(sc, (const uint8_t*) C20_BUF, strlen(C20_BUF)); }
-    else rc = yr_rules_scan_mem(rules, (const uint8_t*) C20_BUF, strlen(C20_BUF), 0, recorder_callback, &rec, 0);
+    Recorder rec; int rc; int bi = (scan_no++ % 3) == 2 ? 1 : 0; const char* B = C20_BUFS[bi];
+    if (sc) { yr_scanner_set_callback(sc, recorder_callback, &rec); rc = yr_scanner_scan_mem(sc, (const uint8_t*) B, strlen(B)); }
+    else rc = yr_rules_scan_mem(rules, (const uint8_t*) B, strlen(B), 0, recorder_callback, &rec, 0);
     if (rc != ERROR_SUCCESS) { fail(op, "scan-rc", who + "|" + yr_error_name(rc), "scan returned " + std::string(yr_error_name(rc))); return; }
-    auto exp = model_verdicts(env), got = observed_verdicts(rec.text);
+    auto exp = model_verdicts(env, bi), got = observed_verdicts(rec.text);
     if (exp != got) fail(op, "verdict", verdict_diff(exp, got), who + " sees " + verdict_diff(exp, got) + " against the three-level model");
   };
   for (size_t k = 0; k < h.ops.size() && d.op < 0; k++, opi++) {
@@ -414,6 +424,7 @@ int main(int argc, char** argv) {
   sim_symbolize((void*) &main);
   std::string cmd = args.pos.empty() ? "run" : args.pos[0];
   yr_initialize();
+  init_of_table();
   Stats st;
   if (cmd == "replay") {
     J rp; if (args.pos.size() < 2 || !J::load(args.pos[1], rp)) return 2;
